@@ -16,7 +16,18 @@ def _freeze(x):
     return x
 
 
+_REPR_BUDGET = threading.local()
+
+
 def _r(x):
+    """Text of a frozen key element.  A term is a DAG with sharing: written out as a tree it can be exponentially large (a grid
+    of 300 nodes) - and the standard library does call repr() on results (asyncio reprs a finished task).  The text is cut
+    after a fixed number of sub-terms; nothing but display depends on it."""
+    left = getattr(_REPR_BUDGET, "left", None)
+    if left is not None:
+        if left <= 0:
+            return "..."
+        _REPR_BUDGET.left = left - 1
     if isinstance(x, tuple) and x and x[0] in ("tuple", "list"):
         o, c = ("(", ")") if x[0] == "tuple" else ("[", "]")
         return o + ", ".join(_r(y) for y in x[1:]) + c
@@ -72,7 +83,18 @@ class Sym:
         return _intern(cls, tuple(_freeze(y) for y in k))
 
     def __repr__(self):
-        return "%s(%s)" % (self.k[0], ", ".join(_r(x) for x in self.k[1:]))
+        outer = getattr(_REPR_BUDGET, "left", None) is None
+        if outer:
+            _REPR_BUDGET.left = 3000
+        try:
+            if _REPR_BUDGET.left <= 0:
+                return "..."
+            return "%s(%s)" % (self.k[0], ", ".join(_r(x) for x in self.k[1:]))
+        except RecursionError:
+            return "%s(<nested too deeply to print>)" % (self.k[0],)
+        finally:
+            if outer:
+                _REPR_BUDGET.left = None
 
     def __hash__(self):
         # the serial number: two different terms never have the same hash, so sets / dicts never fall back to `==`
